@@ -5,18 +5,13 @@ CONSTANTS
   Topic = {}
   Name = {}
   MaxSeq = 2
-  Universe <- U6B
+  Universe <- UB
   CursorVals <- NoVals
   Families = {"ops"}
   MaxLen = 1000
   ExportTransitions = FALSE
   FullTransitions = FALSE
 INVARIANTS
-  TypeOK
-  C08_HeightsSummarise
-  C08_HeightsOfNothingIsNone
-  C08_RangesTile
-  C08_SizeMatchesEntries
-  C08_RowsPartition
+  ExportState
 VIEW StateView
 CHECK_DEADLOCK FALSE
